@@ -2580,3 +2580,186 @@ func (g *EffGraph) writesOnlyObligations(prop string) []*EffObl {
 	}
 	return out
 }
+
+// ---------------------------------------------------------------------------
+// C10: a panic that is passed on is passed on untouched
+// ---------------------------------------------------------------------------
+// `effects repanic-clean`: in a function that recovers a panic and re-raises
+// the values it does not handle (the close signal of coroutine.close travels as
+// a panic through every protected call of the coroutine), nothing is called and
+// nothing is stored on the way from recover() to the re-panic: in particular the
+// pending to-be-closed values are still on the close stack for the frame that
+// finally handles the signal.
+
+func (g *EffGraph) repanicCleanObligations(prop string) []*EffObl {
+	var out []*EffObl
+	for _, ct := range g.eng.all {
+		if !ct.hasProp(prop) {
+			continue
+		}
+		declared := false
+		for _, cl := range ct.byKind("effects") {
+			if strings.Contains(cl.Text, "repanic-clean") {
+				declared = true
+			}
+		}
+		if !declared {
+			continue
+		}
+		fn := g.eng.findFunc(ct.PkgPath, ct.Key)
+		if fn == nil {
+			// closure of a method: PARENT$N
+			if i := strings.LastIndex(ct.Key, "$"); i > 0 {
+				if parent := g.eng.findFunc(ct.PkgPath, ct.Key[:i]); parent != nil {
+					n := 0
+					fmt.Sscanf(ct.Key[i+1:], "%d", &n)
+					if n >= 1 && n <= len(parent.AnonFuncs) {
+						fn = parent.AnonFuncs[n-1]
+					}
+				}
+			}
+		}
+		if fn == nil {
+			out = append(out, &EffObl{Name: ct.PkgPath + "." + ct.Key + "/effect:repanic-clean", Kind: "effect", Desc: "function not found", Witness: "function " + ct.Key + " not found"})
+			continue
+		}
+		var bad []string
+		nre := 0
+		for _, rb := range fn.Blocks {
+			for ri, in := range rb.Instrs {
+				call, ok := in.(*ssa.Call)
+				if !ok {
+					continue
+				}
+				if bi, ok := call.Call.Value.(*ssa.Builtin); !ok || bi.Name() != "recover" {
+					continue
+				}
+				// re-panics of (something derived from) the recovered value
+				for _, pb := range fn.Blocks {
+					for pi, pin := range pb.Instrs {
+						p, ok := pin.(*ssa.Panic)
+						if !ok || !derivesFrom(p.X, call, 0) {
+							continue
+						}
+						nre++
+						// blocks on a path from rb to pb
+						fwd := reachFrom(rb)
+						bwd := reachTo(fn, pb)
+						for _, b := range fn.Blocks {
+							if !(b == rb || fwd[b]) || !(b == pb || bwd[b]) {
+								continue
+							}
+							for ii, x := range b.Instrs {
+								if b == rb && ii <= ri {
+									continue
+								}
+								if b == pb && ii >= pi {
+									continue
+								}
+								switch y := x.(type) {
+								case *ssa.Call:
+									if _, isB := y.Call.Value.(*ssa.Builtin); isB {
+										continue
+									}
+									bad = append(bad, fmt.Sprintf("call %s at %s", calleeName(&y.Call), relPos(g.eng, g.eng.fset.Position(y.Pos()))))
+								case *ssa.Store:
+									if _, isAlloc := y.Addr.(*ssa.Alloc); isAlloc {
+										continue
+									}
+									bad = append(bad, fmt.Sprintf("store at %s", relPos(g.eng, g.eng.fset.Position(y.Pos()))))
+								}
+							}
+						}
+					}
+				}
+			}
+		}
+		o := &EffObl{Name: effName(fn) + "/effect:repanic-clean", Kind: "effect", Pos: relPos(g.eng, g.eng.fset.Position(fn.Pos())),
+			Desc: fmt.Sprintf("nothing is called or stored between recover() and the re-panic of an unhandled value (%d re-panic sites)", nre)}
+		switch {
+		case nre == 0:
+			o.Witness = "no re-panic of the recovered value found"
+		case len(bad) == 0:
+			o.OK = true
+		default:
+			o.Witness = strings.Join(bad, "; ")
+		}
+		out = append(out, o)
+	}
+	return out
+}
+
+func calleeName(c *ssa.CallCommon) string {
+	if f := c.StaticCallee(); f != nil {
+		return f.Name()
+	}
+	if c.IsInvoke() {
+		return c.Method.Name()
+	}
+	return "func value"
+}
+
+func derivesFrom(v ssa.Value, src ssa.Value, depth int) bool {
+	if v == src {
+		return true
+	}
+	if depth > 6 {
+		return false
+	}
+	switch x := v.(type) {
+	case *ssa.Phi:
+		for _, e := range x.Edges {
+			if derivesFrom(e, src, depth+1) {
+				return true
+			}
+		}
+	case *ssa.ChangeInterface:
+		return derivesFrom(x.X, src, depth+1)
+	case *ssa.MakeInterface:
+		return derivesFrom(x.X, src, depth+1)
+	case *ssa.Extract:
+		return derivesFrom(x.Tuple, src, depth+1)
+	case *ssa.TypeAssert:
+		return derivesFrom(x.X, src, depth+1)
+	case *ssa.UnOp:
+		// load of a local the recovered value was stored in
+		if al, ok := x.X.(*ssa.Alloc); ok && al.Referrers() != nil {
+			for _, r := range *al.Referrers() {
+				if st, ok := r.(*ssa.Store); ok && st.Addr == al && derivesFrom(st.Val, src, depth+1) {
+					return true
+				}
+			}
+		}
+	}
+	return false
+}
+
+func reachFrom(b *ssa.BasicBlock) map[*ssa.BasicBlock]bool {
+	seen := map[*ssa.BasicBlock]bool{}
+	stack := append([]*ssa.BasicBlock{}, b.Succs...)
+	for len(stack) > 0 {
+		x := stack[len(stack)-1]
+		stack = stack[:len(stack)-1]
+		if seen[x] {
+			continue
+		}
+		seen[x] = true
+		stack = append(stack, x.Succs...)
+	}
+	return seen
+}
+
+func reachTo(fn *ssa.Function, b *ssa.BasicBlock) map[*ssa.BasicBlock]bool {
+	seen := map[*ssa.BasicBlock]bool{}
+	stack := append([]*ssa.BasicBlock{}, b.Preds...)
+	for len(stack) > 0 {
+		x := stack[len(stack)-1]
+		stack = stack[:len(stack)-1]
+		if seen[x] {
+			continue
+		}
+		seen[x] = true
+		stack = append(stack, x.Preds...)
+	}
+	return seen
+}
